@@ -48,6 +48,10 @@ mod harness {
     // i32::overflowing_pow loops at most 32 times (exponent bits); the reference loops at most 31 times.
     // Unwinding assertions are on: passing them makes this complete, not bounded.
     #[kani::proof]
+    #[kani::unwind(8)]
+    fn power_small_exponent_int() { crate::bodies::power_small_exponent_int(&mut K) }
+
+    #[kani::proof]
     #[kani::unwind(34)]
     fn power_int() { crate::bodies::power_int(&mut K) }
 }
